@@ -373,7 +373,7 @@ func main() {
 		}
 	}
 	for _, n := range e.notes {
-		if strings.HasPrefix(n, "stale-invariant") {
+		if strings.HasPrefix(n, "stale-invariant") || strings.HasPrefix(n, "stale-clause") {
 			lines = append(lines, "NOTE "+n)
 		}
 		if strings.HasPrefix(n, "stale-contract") {
